@@ -299,6 +299,7 @@ class Inliner:
                 beta_reduce(node)
                 fold_format_constants(node)
             if fmt or changed:
+                changed |= desugar_tables(node, f.module.top)  # before scalar replacement: the rows may be private records
                 changed |= scalar_replace(node, f.module)
                 changed |= tuple_state_split(node)
                 changed |= unroll_literal_loops(node, f.module.top)
